@@ -176,8 +176,6 @@ type c04eEnv struct {
 	name  string
 }
 
-func (e *c04eEnv) c() *Ctx { return e.g.c }
-
 // c04eNewEnv creates a node and announces it to the model (enew + genesis blk + save).
 func (g *c04eG) newEnv(name string, w *World) *c04eEnv {
 	e := &c04eEnv{g: g, w: w, n: w.NewNode(len(w.DeputyKeys)), ids: map[common.Hash]int{}, name: name}
@@ -262,7 +260,6 @@ func (e *c04eEnv) otherDeputy(miner common.Address) *ecdsa.PrivateKey {
 // confirm makes b stable on the mirrored node (2 of 3 signatures).
 func (e *c04eEnv) confirm(b *types.Block) {
 	c04eConfirmOn(e.n, e.g.observer, b, e.otherDeputy(b.MinerAddress()))
-	// note: stable-change detection needs before/after
 }
 
 func c04eConfirmOn(n *Node, observer *ecdsa.PrivateKey, b *types.Block, k *ecdsa.PrivateKey) {
@@ -531,11 +528,11 @@ func c04Engine(c *Ctx) {
 
 	// ---- family 3: the real miner with a pool fed by a side-branch block (fresh node pair per repetition, real clock)
 	mreps := reps
-	if mreps < 3 {
-		mreps = 3
+	if mreps < 6 {
+		mreps = 6
 	}
-	if mreps > 9 {
-		mreps = 9
+	if mreps > 12 {
+		mreps = 12
 	}
 	for r := 0; r < mreps; r++ {
 		c04eMiner(g, r)
@@ -1253,22 +1250,28 @@ func c04eMiner(g *c04eG, rep int) {
 		tB1 := tf + 10 + uint32(rnd.Intn(10))
 		exp := uint64(tA1+c04eLife) - uint64(rnd.Intn(30)) // still alive at the real `now` (about tf+1500..1600)
 		p := e.pay(exp)
-		shape := []string{"standalone-on-side", "boxed-on-side", "boxed-on-main"}[rep%3]
+		shapes := []string{"standalone-on-side", "boxed-on-side", "boxed-on-main", "switch/standalone-on-both", "switch/boxed-on-new", "switch/boxed-on-old"}
+		shape := shapes[rep%len(shapes)]
+		switching := strings.HasPrefix(shape, "switch/")
 		boxExp := uint64(tB1+c04eLife) - 50 - uint64(rnd.Intn(30))
 		if boxExp > exp {
 			boxExp = exp
 		}
 		onA, onB := p.tx, p.tx
 		switch shape {
-		case "boxed-on-side":
+		case "boxed-on-side", "switch/boxed-on-new":
 			onB = e.box(e.otherUser(p.from), boxExp, p.tx)
-		case "boxed-on-main":
+		case "boxed-on-main", "switch/boxed-on-old":
 			onA = e.box(e.otherUser(p.from), boxExp, p.tx)
 		}
 		a1 := e.mustInsert(f, tA1, onA)
 		both(a1)
-		a2 := e.mustInsert(a1, tA2)
-		both(a2)
+		var head *types.Block
+		if !switching {
+			// the node stays on branch A = F-A1-A2; B1 arrives on the side
+			head = e.mustInsert(a1, tA2)
+			both(head)
+		}
 		b1, _ := e.build(f, tB1, onB)
 		if e.insert(b1) != "accept" {
 			c.Count("e:miner:" + shape + ":side-block-refused")
@@ -1276,20 +1279,30 @@ func c04eMiner(g *c04eG, rep int) {
 			return
 		}
 		both(b1)
-		if e.n.BC.CurrentBlock().Hash() != a2.Hash() {
-			panic("head is not A2")
+		if switching {
+			// B grows longer: the node switches from F-A1 to F-B1-B2 (onCurrentChanged moves the old fork's txs to the pool)
+			head = e.mustInsert(b1, tB1+uint32(rnd.Intn(10)))
+			both(head)
+		}
+		if e.n.BC.CurrentBlock().Hash() != head.Hash() {
+			panic("unexpected head before mining: " + shape)
 		}
 		inPool := false
 		for _, tx := range e.n.Pool.GetTxs(uint32(time.Now().Unix()), 1000) {
-			if tx.Hash() == onB.Hash() {
+			if tx.Hash() == p.tx.Hash() {
 				inPool = true
 			}
+			for _, st := range c04eSubs(tx) {
+				if st.Hash() == p.tx.Hash() {
+					inPool = true
+				}
+			}
 		}
-		if !inPool {
-			c.Count("e:miner:" + shape + ":side-tx-not-pooled")
-			return
+		if inPool {
+			c.Count("e:miner:" + shape + ":guarded-tx-pooled")
+		} else {
+			c.Count("e:miner:" + shape + ":guarded-tx-not-pooled")
 		}
-		c.Count("e:miner:" + shape + ":side-tx-pooled")
 		stableBefore := e.n.BC.StableBlock().Hash()
 		var m *types.Block
 		var err error
@@ -1301,10 +1314,6 @@ func c04eMiner(g *c04eG, rep int) {
 		}
 		e.adopt(m, stableBefore)
 		got := c04eContains(m, p.tx.Hash())
-		if got == 0 {
-			c.Count("e:miner:" + shape + ":miner-filtered")
-			return
-		}
 		k := e.execs(m, p.rcpt, p.amount)
 		deputynode.SetSelfNodeKey(g.observer)
 		peer := Safe(func() string {
@@ -1313,9 +1322,20 @@ func c04eMiner(g *c04eG, rep int) {
 			}
 			return "accept"
 		})
+		if got == 0 {
+			c.Count(fmt.Sprintf("e:miner:%s:mined-without-it(txs=%d):execs-%d:peer-%s", shape, len(m.Txs), k, peer))
+			if peer != "accept" {
+				e.g.fail("c04/honest-block-rejected", fmt.Sprintf("%s: the block mined by the real miner (height %d, %d txs, none of them on its branch already) is refused by a second honest node", shape, m.Height(), len(m.Txs)), e.witness(map[string]interface{}{"shape": shape}))
+			}
+			return
+		}
 		c.Count(fmt.Sprintf("e:miner:%s:mined-replay-execs-%d:peer-%s", shape, k, peer))
-		e.g.fail("c04/miner-includes-guarded-tx", fmt.Sprintf("%s: tx %s is in A1 (time %d) of the node's current branch G-A1-A2; side-branch block B1 (time %d) carrying it too was inserted, saveNewBlock pooled it; the real miner (MineBlock on head A2, stamp %d) packs it again into its own block height %d: recipient credited %d x %s at the new head; a second honest node with the same blocks answers %s to that block",
-			shape, p.tx.Hash().Hex()[:10], tA1, tB1, m.Time(), m.Height(), k, p.amount, peer),
+		how := "side-branch block B1 carrying it too was inserted and saveNewBlock pooled its txs"
+		if switching {
+			how = "the node switched from branch F-A1 to F-B1-B2 and onCurrentChanged pooled the old fork's txs"
+		}
+		e.g.fail("c04/miner-includes-guarded-tx", fmt.Sprintf("%s: tx %s is on the node's current branch (head height %d; A1 time %d, B1 time %d, both carry it); %s; the real miner (MineBlock on the head, stamp %d) packs it again into its own block height %d: recipient credited %d x %s at the new head; a second honest node with the same blocks answers %s to that block",
+			shape, p.tx.Hash().Hex()[:10], head.Height(), tA1, tB1, how, m.Time(), m.Height(), k, p.amount, peer),
 			e.witness(map[string]interface{}{"shape": shape, "tA1": tA1, "tA2": tA2, "tB1": tB1, "exp": exp, "minedAt": m.Time(), "execs": k, "peer": peer, "rep": rep}))
 	})
 }
